@@ -166,7 +166,8 @@ def nj_certified(m):
 # "():;,"): blanks, dots, digits, case variants, underscores, quotes, non-ASCII letters
 NAME_POOL = ["Old High German", "Mid. Dutch", "German", "german", "GERMAN", "Old_High German", "t 1", "2nd  lang.",
              "x.y", "O'odham", "Ewe-1", "\u00c9w\u00e9", "\u00d1and\u00fa", "\u0420\u0443\u0441\u0441\u043a\u0438\u0439",
-             "a b c", "A b", "0.5", "e5", "Proto-Indo European", "l\u00e4nsi suomi", "7", "No. 7", "-", "+1.0"]
+             "a b c", "A b", "0.5", "e5", "Proto-Indo European", "l\u00e4nsi suomi", "7", "No. 7", "-", "+1.0",
+             "Old_Norse", "a_b_c", "_lead", "trail_", "x__y", "Proto_Slavic"]
 
 
 def plain_names(n):
@@ -217,7 +218,7 @@ def exhaustive_cases(n_max=4, vals=(F(1, 2), F(1), F(3, 2))):
 # ----------------------------------------------------------------------
 # running the implementation
 
-def parse_newick(s, names, foreign):
+def parse_newick(s, names, foreign, standard=False):
     """Parse a Newick string by its structural characters "(),:;" only (lingpy prints labels
     unquoted, so a label is whatever stands between them - blanks included, nothing is
     stripped).  A leaf label is mapped to the index of the taxon with exactly that name; a
@@ -226,10 +227,25 @@ def parse_newick(s, names, foreign):
     pos = [0]
 
     def text():
+        if standard and pos[0] < len(s) and s[pos[0]] == "'":
+            # quoted label: literal, '' stands for one quote
+            out = []
+            pos[0] += 1
+            while True:
+                assert pos[0] < len(s), s
+                if s[pos[0]] == "'":
+                    if s[pos[0] + 1:pos[0] + 2] == "'":
+                        out.append("'")
+                        pos[0] += 2
+                        continue
+                    pos[0] += 1
+                    return "".join(out)
+                out.append(s[pos[0]])
+                pos[0] += 1
         st = pos[0]
         while pos[0] < len(s) and s[pos[0]] not in "(),:;":
             pos[0] += 1
-        return s[st:pos[0]]
+        return s[st:pos[0]].replace("_", " ") if standard else s[st:pos[0]]
 
     def node():
         if pos[0] < len(s) and s[pos[0]] == "(":
@@ -303,7 +319,39 @@ def run_impl(case):
     rows = [[int(r[0]), int(r[1]), F(float(r[2])), F(float(r[3]))] for r in recorded[0]]
     rows2 = [[int(r[0]), int(r[1]), F(float(r[2])), F(float(r[3]))] for r in recorded[1]]
     assert rows == rows2, "two runs on the same matrix filled different tree matrices"
+    # more entry points: the generic converter on the recorded tree matrix, and the tree OBJECTS
+    # lingpy builds from the builders' Newick with its own parser
+    from lingpy.thirdparty.cogent import LoadTree
+    t2_top = _cluster._tree2nwk(copy.deepcopy(recorded[0]), list(taxa), False)
+    t2_len = _cluster._tree2nwk(copy.deepcopy(recorded[0]), list(taxa), True)
+    calc = "upgma" if case["algo"] == "upgma" else "neighbor"
+    o_len = clustering.matrix2tree(fresh(), list(taxa), tree_calc=calc, distances=True)
+    o_top = clustering.matrix2tree(fresh(), list(taxa), tree_calc=calc, distances=False)
+    o_rt = LoadTree(treestring=s_len)
+
+    def name_idx(name):
+        if name in names:
+            return names[name]
+        if name not in foreign:
+            foreign.append(name)
+        return len(names) + foreign.index(name)
+
+    def obj_tree(node):
+        if not node.Children:
+            return ("L", name_idx(node.Name))
+        return ("N", [(obj_tree(ch), ch.Length) for ch in node.Children])
+    # the Newick the tree objects serialise to (standard escaping: blank <-> '_', quoted labels literal)
+    objs_len = [obj_tree(o) for o in (o_len, o_rt)] + [parse_newick(str(o_len), names, foreign, standard=True)]
+    objs_top = [obj_tree(o_top), parse_newick(str(o_top), names, foreign, standard=True)]
+    tips = []
+    for o in (o_len, o_top, o_rt):
+        tips.append([name_idx(x) for x in o.getTipNames()])
+        tips.append([name_idx(x) for x in o.taxa])
     res = {"rows": rows, "newick": s_top, "newick_len": s_len,
+           "tree2nwk": t2_top, "tree2nwk_len": t2_len,
+           "t2n": parse_newick(t2_top, names, foreign), "t2nd": parse_newick(t2_len, names, foreign),
+           "objs_len": objs_len, "objs_top": objs_top, "tips": tips,
+           "matrix2tree_str": [str(o_len), str(o_top)],
            "nwk": parse_newick(s_top, names, foreign), "nwkd": parse_newick(s_len, names, foreign),
            "foreign_leaf_names": foreign}
     if case["algo"] == "nj":
@@ -338,6 +386,11 @@ def render(case, res):
         ntree_lit(res["nwk"]),
         ntree_lit(res["nwkd"]),
         L.opt(case["gen"], tree_lit),
+        ntree_lit(res["t2n"]),
+        ntree_lit(res["t2nd"]),
+        L.lst([ntree_lit(o) for o in res["objs_len"]]),
+        L.lst([ntree_lit(o) for o in res["objs_top"]]),
+        L.lst([L.natlist(t) for t in res["tips"]]),
     ])
 
 
@@ -381,6 +434,8 @@ def jsonable(case, res=None):
         c["impl"] = {"rows": [[a, b, str(x), str(y), float(x), float(y)] for a, b, x, y in res["rows"]],
                      "newick": res["newick"], "newick_len": res["newick_len"],
                      "leaf_names_not_among_the_given_taxa": res["foreign_leaf_names"],
+                     "tree2nwk": res["tree2nwk"], "tree2nwk_len": res["tree2nwk_len"],
+                     "matrix2tree_str": res["matrix2tree_str"],
                      "nj_margin_certified": res["certified"]}
     return c
 
